@@ -179,6 +179,14 @@ type Exec struct {
 	canonID   map[string]string // real -> canonical
 	freshIDs  int
 	Ctx       context.Context
+	// CallCtx: every call that does not hand out a BlobWriter gets a context of its own
+	// (derived from Ctx) that is cancelled as soon as the call has returned and its result has
+	// been consumed - what net/http does with the context of a request when the handler returns.
+	// An implementation that keeps a context past the call and consults it later gives a wrong
+	// answer afterwards.  PushBlobChunked / PushBlobChunkedResume are exempt (their context stays
+	// active as long as the BlobWriter is around, says the interface): their caller passes the
+	// context it manages itself to RunCtx.
+	CallCtx bool
 }
 
 func NewExec(reg ociregistry.Interface, ptrIdent bool) *Exec {
@@ -236,16 +244,27 @@ func readAll(r ociregistry.BlobReader) Result {
 }
 
 // Run executes one op; panics in the implementation are caught and reported.
-func (e *Exec) Run(o Op) (res Result) {
-	panicked, pv := hx.Recover(func() { res = e.run(o) })
+func (e *Exec) Run(o Op) (res Result) { return e.RunCtx(nil, o) }
+
+// RunCtx is Run with the context the call is made with (nil: the Exec's own, see CallCtx); the
+// lifetime of a context given explicitly is the caller's business.
+func (e *Exec) RunCtx(ctx context.Context, o Op) (res Result) {
+	panicked, pv := hx.Recover(func() { res = e.run(ctx, o) })
 	if panicked {
 		return Result{Kind: "panic", Msg: pv}
 	}
 	return res
 }
 
-func (e *Exec) run(o Op) Result {
-	ctx := e.Ctx
+func (e *Exec) run(ctx context.Context, o Op) Result {
+	if ctx == nil {
+		ctx = e.Ctx
+		if e.CallCtx && o.Kind != "PushBlobChunked" && o.Kind != "PushBlobChunkedResume" {
+			var cancel context.CancelFunc
+			ctx, cancel = context.WithCancel(ctx)
+			defer cancel()
+		}
+	}
 	dg := ociregistry.Digest(o.Digest)
 	switch o.Kind {
 	case "GetBlob":
